@@ -1,6 +1,9 @@
 /* C02: PRWLock under the controlled scheduler (posix and general models).
  * harness: rw <script> <script> [<script> [<script>]]     one script per thread, characters:
  *     R reader_lock..unlock   W writer_lock..unlock   r reader_trylock (cs if TRUE)   w writer_trylock (cs if TRUE)
+ * harness: nest        a reader that, while it holds the read lock, starts and joins a helper taking a read lock, next to a writer:
+ *                      every lock is released again, so the rounds must run to completion (a lock that makes new readers wait
+ *                      behind a waiting writer deadlocks here)
  */
 #include <plibsys.h>
 #include "mc.h"
@@ -82,6 +85,33 @@ static void h_rw(int argc, char **argv)
     mc_outcome("data=%ld %s", data, out);
 }
 
+static void *nest_helper(void *a) { (void)a; if (!p_rwlock_reader_lock(lk)) mc_fail("C02", "reader_lock-false", "p_rwlock_reader_lock returned FALSE"); section(0, "reader_lock"); p_rwlock_reader_unlock(lk); return NULL; }
+static void *nest_reader(void *a)
+{
+    int h; (void)a;
+    if (!p_rwlock_reader_lock(lk)) mc_fail("C02", "reader_lock-false", "p_rwlock_reader_lock returned FALSE");
+    enter(0, "reader_lock");
+    h = mc_thread_create(nest_helper, NULL);
+    mc_thread_join(h);
+    leave(0);
+    p_rwlock_reader_unlock(lk);
+    return NULL;
+}
+static void *nest_writer(void *a) { (void)a; if (!p_rwlock_writer_lock(lk)) mc_fail("C02", "writer_lock-false", "p_rwlock_writer_lock returned FALSE"); section(1, "writer_lock"); p_rwlock_writer_unlock(lk); return NULL; }
+static void h_nest(int argc, char **argv)
+{
+    int a, b; (void)argc; (void)argv;
+    mc_name(&data, sizeof data, "harness.data");
+    lk = p_rwlock_new();
+    if (!lk) mc_fail("C02", "new-failed", "p_rwlock_new returned NULL");
+    a = mc_thread_create(nest_reader, NULL); b = mc_thread_create(nest_writer, NULL);
+    mc_thread_join(a); mc_thread_join(b);
+    p_rwlock_free(lk);
+    if (data != 1) mc_fail("C02", "lost-update", "data is %ld after one writer section", data);
+    mc_nontrivial(0);
+    mc_outcome("data=%ld", data);
+}
+
 /* relock (native pthread model only): a thread that holds the lock in one mode asks for the other mode with the blocking call.
  * POSIX lets the native call fail with EDEADLK; whatever happens, the call must not report success (the lock would be held
  * by a writer and a reader at once). */
@@ -104,5 +134,6 @@ static void h_relock(int argc, char **argv)
     mc_outcome("ok");
 }
 
-static const McHarness HS[] = { {"rw", h_rw, "<script> per thread over R W r w"}, {"relock", h_relock, "same-thread re-lock in the other mode (posix model)"} };
-int main(int argc, char **argv) { return mc_main(argc, argv, HS, 2); }
+static const McHarness HS[] = { {"rw", h_rw, "<script> per thread over R W r w"}, {"relock", h_relock, "same-thread re-lock in the other mode (posix model)"},
+    {"nest", h_nest, "reader that starts and joins another reader while holding the lock, next to a writer"} };
+int main(int argc, char **argv) { return mc_main(argc, argv, HS, (int)(sizeof HS / sizeof HS[0])); }
